@@ -414,6 +414,12 @@ func c07Stream(c *fw.Ctx, cs *c07Case, base []byte) {
 	wantS := map[uint64]int{} // dump of the direct parse of each sentinel -> its number
 	for k := 0; k < want; k++ {
 		v := variants[r.Intn(len(variants))]
+		if k%5 == 4 {
+			// a frame whose header length is 5, 6 or 7: the stream de-frames it and hands those few bytes to a parser
+			// goroutine (a length of 4 or less stops the de-framer for good and is not sent)
+			l := 5 + r.Intn(3)
+			v = append([]byte{4, byte(r.Intn(30)), 0, byte(l)}, r.Bytes(l-4)...)
+		}
 		data = append(data, v...)
 		hostile++
 		if k%3 == 2 {
